@@ -1032,7 +1032,8 @@ def groups_of(tag, d):
 def surf_far(tag_a, da, tag_b, db, rel, abs_=None, slack=4.0, written=False):
     """independent closeness predicate with the DOCUMENTED SoftEqual semantics
     |a − b| < max(abs, rel·max(‖a‖, ‖b‖)) per coefficient group (`written=True`: the relative term
-    of vector groups uses abs as SoftSurfaceEqual::soft_eq_distance is written): name of the first
+    of vector groups uses abs, as SoftSurfaceEqual::soft_eq_distance did before fix 1450523 — used to
+    recognise that regression): name of the first
     group that differs by more than slack × that, or None when all groups are close"""
     abs_ = rel if abs_ is None else abs_
     if tag_a != tag_b:
@@ -1169,8 +1170,11 @@ def run_softeq(ctx, exe, model, n, findings):
     oracles on the real answers: symmetry, reflexivity, and `soft-equal ⇒ every group close`"""
     rng = ctx.rng
     cases = [gen_softeq_pair(rng) for _ in range(n)]
-    # the documented-vs-written relative term of soft_eq_distance: abs = 100 rel, far origins
+    # regression (fixed in /repo 1450523): soft_eq_distance used abs for its relative term; with
+    # abs = 100 rel these centres compared equal although they are 0.5 resp. 0.062 apart
     cases.append((1e-5, 1e-3, ("s", [1000.0, 0.0, 0.0, 4.0]), ("s", [1000.5, 0.0, 0.0, 4.0]), "origin"))
+    cases.append((1e-4, 1e-2, ("s", [-6.50132913777197, -2.913382874459023, 0.7865837107493823, 1.002001e-06]),
+                  ("s", [-6.475317917115991, -2.9029228793768915, 0.8419472093920839, 1.002001e-06]), "origin"))
 
     def line(rel, abs_, a, b):
         return "softeq %s %s %s %s | %s %s" % (hx(rel), hx(abs_), a[0], " ".join(hx(v) for v in a[1]),
